@@ -255,20 +255,35 @@ ComponentPtr ComponentEntity::takeComponent(const std::string &name, bool search
 
 bool ComponentEntity::replaceComponent(size_t index, const ComponentPtr &newComponent)
 {
-    bool status = false;
     auto oldComponent = component(index);
-    ParentedEntityPtr parent = nullptr;
-    if (oldComponent != nullptr) {
-        parent = oldComponent->parent();
+    if ((oldComponent == nullptr) || (newComponent == nullptr)) {
+        return false;
+    }
+    if (oldComponent == newComponent) {
+        return true;
     }
 
-    if (removeComponent(index)) {
-        pFunc()->mComponents.insert(pFunc()->mComponents.begin() + ptrdiff_t(index), newComponent);
-        newComponent->pFunc()->setParent(parent);
-        status = true;
+    // The parent of the replaced component is this entity.
+    ParentedEntityPtr parent = oldComponent->parent();
+    if ((parent != nullptr) && ((parent == newComponent) || parent->hasAncestor(newComponent))) {
+        // The replacement is this entity or one of its ancestors: that would create a cycle.
+        return false;
     }
 
-    return status;
+    // A component has only one parent: take the replacement out of the entity that currently holds it.
+    if (newComponent->hasParent()) {
+        removeComponentFromEntity(newComponent->parent(), newComponent);
+    }
+
+    auto result = std::find(pFunc()->mComponents.begin(), pFunc()->mComponents.end(), oldComponent);
+    if (result == pFunc()->mComponents.end()) {
+        return false;
+    }
+    oldComponent->pFunc()->removeParent();
+    newComponent->pFunc()->setParent(parent);
+    pFunc()->mComponents[size_t(result - pFunc()->mComponents.begin())] = newComponent;
+
+    return true;
 }
 
 bool ComponentEntity::replaceComponent(const std::string &name, const ComponentPtr &component, bool searchEncapsulated)
